@@ -19,7 +19,19 @@ fn small_input(mut idx: u64, n: usize) -> Vec<u8> {
     v
 }
 
-fn count_lines(data: &[u8]) -> usize {
+/// the same alphabet plus NUL (a token byte; also the value `peek` yields at end of input)
+const ALPHA7: [u8; 7] = [b'1', b'-', b' ', b'\n', b'\r', b'a', 0];
+
+fn small_input7(mut idx: u64, n: usize) -> Vec<u8> {
+    let mut v = vec![0u8; n];
+    for i in (0..n).rev() {
+        v[i] = ALPHA7[(idx % 7) as usize];
+        idx /= 7;
+    }
+    v
+}
+
+pub fn count_lines(data: &[u8]) -> usize {
     let mut o = Oracle::new(data);
     let mut k = 0;
     while o.line().is_some() {
@@ -28,7 +40,7 @@ fn count_lines(data: &[u8]) -> usize {
     k
 }
 
-fn small_token_script(rng: &mut SplitMix64, data: &[u8]) -> Vec<Op> {
+pub fn small_token_script(rng: &mut SplitMix64, data: &[u8]) -> Vec<Op> {
     let mut o = Oracle::new(data);
     let mut ops = Vec::new();
     let mut scratch = String::new();
@@ -116,7 +128,7 @@ fn small_pair(g: &mut Gen, rng: &mut SplitMix64, input: &[u8], sk: u64) {
 }
 
 pub fn stream_small(g: &mut Gen, rng: &mut SplitMix64, thorough: bool) {
-    let full_upto = if thorough { 4 } else { 3 };
+    let full_upto = g.size(thorough, (3, 4), (2, 3));
     for n in 0..=full_upto {
         for idx in 0..6u64.pow(n as u32) {
             let input = small_input(idx, n);
@@ -125,9 +137,38 @@ pub fn stream_small(g: &mut Gen, rng: &mut SplitMix64, thorough: bool) {
             }
         }
     }
+    // inputs with at least one NUL byte over the 7-letter alphabet: all of them up to length 2 (thorough: 4), a sample above
+    let nul_upto = g.size(thorough, (2, 4), (1, 2));
+    for n in 1..=nul_upto {
+        for idx in 0..7u64.pow(n as u32) {
+            let input = small_input7(idx, n);
+            if input.contains(&0) {
+                for sk in 0..3 {
+                    small_pair(g, rng, &input, sk);
+                }
+            }
+        }
+    }
+    let nul_plan: &[(usize, usize)] = if g.lite() { &[(2, 4), (3, 2)] } else if thorough { &[(5, 300), (6, 100)] } else { &[(3, 14), (4, 5), (5, 2)] };
+    for &(n, cnt) in nul_plan {
+        let mut done = 0;
+        while done < cnt {
+            let input = small_input7(rng.below(7u64.pow(n as u32)), n);
+            if input.contains(&0) {
+                let sk = rng.below(3);
+                small_pair(g, rng, &input, sk);
+                done += 1;
+            }
+        }
+    }
     // sampled lengths: for each sampled (input, script) again all chunkings x single interrupts
-    let plan: &[(usize, usize, bool)] =
-        if thorough { &[(5, 2000, true), (6, 1000, true)] } else { &[(4, 6, false), (5, 3, false), (6, 2, false)] };
+    let plan: &[(usize, usize, bool)] = if g.lite() {
+        if thorough { &[(4, 30, false), (5, 10, false)] } else { &[(3, 6, false), (4, 2, false)] }
+    } else if thorough {
+        &[(5, 2000, true), (6, 1000, true)]
+    } else {
+        &[(4, 6, false), (5, 3, false), (6, 2, false)]
+    };
     for &(n, cnt, all_scripts) in plan {
         for _ in 0..cnt {
             let input = small_input(rng.below(6u64.pow(n as u32)), n);
@@ -193,7 +234,7 @@ pub fn grammar_input(rng: &mut SplitMix64) -> Inp {
 }
 
 pub fn stream_grammar(g: &mut Gen, rng: &mut SplitMix64, thorough: bool) {
-    let pairs = if thorough { 133_000 } else { 1500 };
+    let pairs = g.size(thorough, (1500, 133_000), (250, 4000));
     for _ in 0..pairs {
         let inp = grammar_input(rng);
         let strict = rng.chance(1, 2);
@@ -210,7 +251,7 @@ pub fn stream_grammar(g: &mut Gen, rng: &mut SplitMix64, thorough: bool) {
 // (3) line-oriented inputs
 // ---------------------------------------------------------------------------------------------
 
-fn lines_input(rng: &mut SplitMix64) -> Vec<u8> {
+pub fn lines_input(rng: &mut SplitMix64) -> Vec<u8> {
     let nl = rng.below(8) as usize;
     let mut out = Vec::new();
     for i in 0..nl {
@@ -318,7 +359,7 @@ fn lines_mixed_script(rng: &mut SplitMix64, data: &[u8]) -> Vec<Op> {
     ops
 }
 
-fn lines_scripts(rng: &mut SplitMix64, data: &[u8]) -> Vec<Vec<Op>> {
+pub fn lines_scripts(rng: &mut SplitMix64, data: &[u8]) -> Vec<Vec<Op>> {
     let k = count_lines(data);
     let mut a = vec![Op::Line; k + 1 + rng.below(2) as usize];
     if rng.chance(1, 2) {
@@ -333,7 +374,18 @@ fn lines_scripts(rng: &mut SplitMix64, data: &[u8]) -> Vec<Vec<Op>> {
     vec![a, b, c]
 }
 
-const LINE_SPECIALS: [&[u8]; 24] = [
+pub const LINE_SPECIALS: [&[u8]; 34] = [
+    // NUL is a byte like any other (it is also what `peek` returns at end of input); VT is not whitespace
+    b"\0",
+    b"a\0b",
+    b"a\0b\n",
+    b"\0\n\0",
+    b"\r\0\n",
+    b"\0\r\n\0\r",
+    b"x \0 y\0",
+    b"-\0 1\0",
+    b"a\x0bb \x0b\n\x7f",
+    b"12\0\r\n\0 7",
     b"",
     b"\r",
     b"\n",
@@ -361,7 +413,7 @@ const LINE_SPECIALS: [&[u8]; 24] = [
 ];
 
 pub fn stream_lines(g: &mut Gen, rng: &mut SplitMix64, thorough: bool) {
-    let rounds = if thorough { 40 } else { 1 };
+    let rounds = g.size(thorough, (1, 40), (1, 2));
     for _ in 0..rounds {
         for sp in LINE_SPECIALS.iter() {
             for ops in lines_scripts(rng, sp) {
@@ -378,7 +430,7 @@ pub fn stream_lines(g: &mut Gen, rng: &mut SplitMix64, thorough: bool) {
             }
         }
     }
-    let inputs = if thorough { 32_000 } else { 330 };
+    let inputs = g.size(thorough, (330, 32_000), (60, 2000));
     for _ in 0..inputs {
         let data = lines_input(rng);
         for ops in lines_scripts(rng, &data) {
@@ -436,8 +488,34 @@ fn overflowing(rng: &mut SplitMix64, a: Atom) -> Vec<u8> {
     }
 }
 
+/// Bytes >= 0x80 (Latin-1 through `u8 as char`): outside the property's domain (it speaks of ASCII inputs), so these
+/// cases exist only as `full` twin lines (`S any`): model and implementation are compared, differences are counted, never a verdict.
+pub fn stream_non_ascii(g: &mut Gen, rng: &mut SplitMix64, thorough: bool) {
+    let count = g.size(thorough, (40, 2000), (10, 100));
+    for _ in 0..count {
+        let mut data = Vec::new();
+        let nt = 1 + rng.below(5);
+        for i in 0..nt {
+            let l = 1 + rng.below(6) as usize;
+            let mut w = word(rng, l);
+            for _ in 0..1 + rng.below(2) {
+                let at = rng.below(w.len() as u64) as usize;
+                w[at] = 0x80 + rng.below(0x80) as u8;
+            }
+            data.extend_from_slice(&w);
+            if i + 1 < nt || rng.chance(1, 2) {
+                rand_sep(rng, &mut data);
+            }
+        }
+        let ops = if rng.chance(1, 2) { lines_mixed_script(rng, &data) } else { small_token_script(rng, &data) };
+        let p = prep(&data, &ops);
+        g.emit_count_pair("pairs_stream6b");
+        emit_under(g, rng, "stream6b_non_ascii_counted_only", &p, &[SK::All, SK::Bytes]);
+    }
+}
+
 pub fn stream_ood(g: &mut Gen, rng: &mut SplitMix64, thorough: bool) {
-    let count = if thorough { 9000 } else { 100 };
+    let count = g.size(thorough, (100, 9000), (30, 500));
     const UNSIGNED: [Atom; 6] = [Atom::U8, Atom::U16, Atom::U32, Atom::U64, Atom::U128, Atom::Usize];
     const SIGNED: [Atom; 6] = [Atom::I8, Atom::I16, Atom::I32, Atom::I64, Atom::I128, Atom::Isize];
     for _ in 0..count {
